@@ -266,7 +266,7 @@ impl TreeOpts {
 }
 
 /// XML_LOCALS plus names that look like the `xml:*` attributes / declarations without being them
-const XML_LOCALS_WIDE: &[&str] = &["a", "b", "c", "é", "名", "x-1", "y.z", "_u", "A", "id", "lang", "space", "xmlnsx", "Id"];
+const XML_LOCALS_WIDE: &[&str] = &["a", "b", "c", "é", "名", "x-1", "y.z", "_u", "A", "id", "lang", "space", "xmlnsx", "Id", "pa", "qa", "pb", "xmlid"];
 
 fn locals(n: Names) -> &'static [&'static str] {
     match n {
@@ -279,11 +279,15 @@ fn locals(n: Names) -> &'static [&'static str] {
 
 fn uris(o: &TreeOpts) -> Vec<&'static str> {
     match o.names {
-        Names::Xml => URIS_XML
-            .iter()
-            .copied()
-            .filter(|u| o.odd_uris || !u.contains('&'))
-            .collect(),
+        Names::Xml => {
+            let mut v: Vec<&'static str> = URIS_XML.iter().copied().filter(|u| o.odd_uris || !u.contains('&')).collect();
+            if o.wide_prefixes {
+                // a namespace name with a space: the renderer may spell it as a literal TAB / LF / CR,
+                // which attribute-value normalisation turns back into a space
+                v.push("urn:s p");
+            }
+            v
+        }
         Names::Html => URIS_HTML.to_vec(),
         Names::Tiny => URIS_TINY.to_vec(),
         Names::Latin => URIS_XML.iter().copied().filter(|u| o.odd_uris || !u.contains('&')).collect(),
